@@ -123,7 +123,8 @@ fn run_case(idx: usize, case: &Value, want_trace: bool, evs: &HashSet<String>) -
   let mut out = CaseOut { mismatches: vec![], trace: vec![], builds: 0 };
   let world: World = serde_json::from_value(case["w"].clone()).expect("world");
   let id = format!("case{idx}");
-  let bo = BuildOpts::default();
+  let mut bo = BuildOpts::default();
+  bo.max_redirects = case.get("maxRedirects").and_then(|v| v.as_u64()).map(|v| v as usize);
   for kind in ["all", "code", "types"] {
     let expected = norm_graph(&case["graphs"][kind]);
     let res = std::panic::catch_unwind(std::panic::AssertUnwindSafe(|| build(&world, kind_of(kind), &world.roots, &bo)));
@@ -181,6 +182,29 @@ fn run_case(idx: usize, case: &Value, want_trace: bool, evs: &HashSet<String>) -
       }
       if out.trace.len() == before + 1 {
         out.trace.pop(); // a lone reset
+      }
+    }
+    // C19 reload history: build, edit one source, reload exactly the edited specifier
+    if let Some(edit) = case.get("edit").filter(|e| e["s"].as_str().is_some_and(|s| s != "-")) {
+      let es = edit["s"].as_str().unwrap().to_string();
+      let mut w2 = world.clone();
+      w2.mods.insert(es.clone(), serde_json::from_value(edit["resp"].clone()).expect("edit resp"));
+      let mut g2 = g.clone();
+      let r = std::panic::catch_unwind(std::panic::AssertUnwindSafe(|| reload(&w2, &mut g2, &[es.clone()], &bo)));
+      out.builds += 1;
+      if let Err(e) = r {
+        out.mismatches.push(json!({"case": idx, "kind": kind, "what": "panic-reload", "msg": panic_msg(e), "prop": ["C03", "C19"]}));
+        continue;
+      }
+      let observed = graph_json(&w2, &g2);
+      let expected = norm_graph(&case["reloaded"][kind]);
+      if let Some((path, e, o)) = first_diff("g", &strip(&expected, &["sch", "ctx", "ref"]), &strip(&observed, &["sch", "ctx", "ref"])) {
+        out.mismatches.push(json!({"case": idx, "kind": kind, "what": "reload-graph", "path": path, "expected": e, "observed": o, "prop": ["DRIFT"]}));
+      }
+      if want_trace && evs.contains("reload") {
+        let fresh = build(&w2, kind_of(kind), &world.roots, &bo);
+        out.trace.push(json!({"ev": "reset", "id": format!("{id}/{kind}"), "g": graph_json(&world, &g)}));
+        out.trace.push(json!({"ev": "reload", "edited": [es], "after": observed, "fresh": graph_json(&w2, &fresh)}));
       }
     }
   }
